@@ -73,7 +73,7 @@ theorem lockInv_frame {ok : List L → L → Bool} {s s' : St L X U V} {i : Tid}
     rw [hthr, List.length_set]
     exact inv.own l j hj
 
-theorem lockInv_step {ok : List L → L → Bool} {ap : U → V → V} {s s' : St L X U V} {i : Tid}
+theorem lockInv_step {ok : List L → L → Bool} {ap : U → V → V → V} {s s' : St L X U V} {i : Tid}
     (inv : LockInv ok s) (h : step ap s i = some s') : LockInv ok s' := by
   obtain ⟨t, m, r, ht, hpc, he⟩ := step_some h
   have hi := inv.thr i t ht
@@ -161,7 +161,7 @@ theorem lockInv_step {ok : List L → L → Bool} {ap : U → V → V} {s s' : S
   | call b c r => exact lockInv_frame inv ht rfl rfl rfl (by simpa [wf] using hi.1)
   | yield r => exact lockInv_frame inv ht rfl rfl rfl (by simpa [wf] using hi.1)
 
-theorem lockInv_run {ok : List L → L → Bool} {ap : U → V → V} (c0 : X → V) (progs : List (List (Micro L X U)))
+theorem lockInv_run {ok : List L → L → Bool} {ap : U → V → V → V} (c0 : X → V) (progs : List (List (Micro L X U)))
     (h : ∀ p ∈ progs, wf ok p [] = true) (sched : List Tid) : LockInv ok (run ap (init c0 progs) sched) :=
   run_induction (LockInv ok) (fun _ _ _ inv hs => lockInv_step inv hs) sched _ (lockInv_init ok c0 progs h)
 
@@ -181,7 +181,7 @@ def BlockedOn (s : St L X U V) (i : Tid) (l : L) : Prop :=
   ∃ t r, s.threads[i]? = some t ∧ t.pc = .acquire l :: r ∧ s.owner l ≠ none
 
 /-- in a state where nobody can move, every unfinished thread waits for a held lock -/
-theorem stuck_blocked {ok : List L → L → Bool} {ap : U → V → V} {s : St L X U V} (inv : LockInv ok s)
+theorem stuck_blocked {ok : List L → L → Bool} {ap : U → V → V → V} {s : St L X U V} (inv : LockInv ok s)
     (hst : stuck ap s) {i : Tid} {t : Thread L X U V} (ht : s.threads[i]? = some t) (hpc : t.pc ≠ []) :
     ∃ l, BlockedOn s i l := by
   have hs := hst i
@@ -223,7 +223,7 @@ theorem wf_nil_held {ok : List L → L → Bool} {hs : List L} (h : wf ok ([] : 
   simpa [wf] using h
 
 /-- whoever is waited for waits itself, for a lock of strictly higher rank -/
-theorem blocked_chain {rank : L → Nat} {ap : U → V → V} {s : St L X U V} (inv : LockInv (rankOrder rank) s)
+theorem blocked_chain {rank : L → Nat} {ap : U → V → V → V} {s : St L X U V} (inv : LockInv (rankOrder rank) s)
     (hst : stuck ap s) {i : Tid} {l : L} (hb : BlockedOn s i l) :
     ∃ j l', BlockedOn s j l' ∧ rank l < rank l' := by
   obtain ⟨t, r, ht, hpc, ho⟩ := hb
@@ -250,7 +250,7 @@ theorem blocked_chain {rank : L → Nat} {ap : U → V → V} {s : St L X U V} (
     simp only [wf, rankOrder, Bool.and_eq_true, List.all_eq_true, decide_eq_true_eq] at hw
     exact hw.1 l hmem
 
-theorem no_chain {rank : L → Nat} {ap : U → V → V} {s : St L X U V} (inv : LockInv (rankOrder rank) s)
+theorem no_chain {rank : L → Nat} {ap : U → V → V → V} {s : St L X U V} (inv : LockInv (rankOrder rank) s)
     (hst : stuck ap s) (B : Nat) (hB : ∀ l, rank l ≤ B) :
     ∀ n i l, BlockedOn s i l → B - rank l ≤ n → False := by
   intro n
@@ -267,7 +267,7 @@ theorem no_chain {rank : L → Nat} {ap : U → V → V} {s : St L X U V} (inv :
     exact ih j l' hb' (by omega)
 
 /-- rank-ordered acquisition: if some thread is unfinished, some thread can move -/
-theorem lockInv_progress {rank : L → Nat} {ap : U → V → V} {s : St L X U V} (inv : LockInv (rankOrder rank) s)
+theorem lockInv_progress {rank : L → Nat} {ap : U → V → V → V} {s : St L X U V} (inv : LockInv (rankOrder rank) s)
     (B : Nat) (hB : ∀ l, rank l ≤ B) (hnf : ¬ finished s) : ∃ i, (step ap s i).isSome = true := by
   apply Classical.byContradiction
   intro hno
